@@ -1,7 +1,8 @@
 ID = "C11"
 LEVEL = "proof"
 TAGS = ("C11",)
-CONTRACT_MODULES = ["contracts.geometry", "contracts.axis", "contracts.state", "contracts.plugin"]
+from props.common import ALL_CONTRACTS
+CONTRACT_MODULES = ALL_CONTRACTS
 P = "__init__.ExcludeRegionPlugin."
 FUNCTIONS = [P + "on_event", P + "handleGcodeQueuing", P + "handleAtCommandQueuing",
              "ExcludeRegionState.ExcludeRegionState.resetState"]
